@@ -21,6 +21,7 @@ func (s *Sim) oracleMore(op Op, evs []SIEvent, preds []PredCall) {
 	s.oracleC02(op, evs)
 	s.oracleC05(op, evs)
 	s.oracleC16(op, evs)
+	s.oracleC06(op, evs)
 }
 
 func (s *Sim) checkDrainedMore() {}
